@@ -1,16 +1,25 @@
 #!/bin/bash
-# seedeval.sh <seed> [property...] : apply /verif/seeded/<seed>/patch.diff to /repo, run the named checks (default: the
-# seed's own property) in the quick tier, print one line per check, and undo the patch straight afterwards.
+# seedeval.sh <seed> [property...] : evaluate a seeded change WITHOUT touching /repo: a scratch worktree of /repo's HEAD gets
+# /verif/seeded/<seed>/patch.diff (patch.rebased.diff when present), the harness is built against it into a scratch build
+# dir, the named checks (default: the seed's own property) run in the quick tier with evidence/replays redirected, one
+# line per check is appended to the seed's eval.log, and worktree + build output are removed.
 seed=$1; shift
 props="$@"; [ -z "$props" ] && props=${seed:0:3}
-cd /repo || exit 2
-if [ -n "$(git status --porcelain --untracked-files=no)" ]; then echo "/repo is dirty"; exit 2; fi
-git apply /verif/seeded/$seed/patch.diff 2>/dev/null || { echo "$seed: patch does not apply"; exit 2; }
+wt=/tmp/seedwt-$seed; impl=/tmp/seedimpl-$seed
+rm -rf $impl; git -C /repo worktree remove --force $wt 2>/dev/null; rm -rf $wt
+git -C /repo worktree add -q --detach $wt HEAD || exit 2
+pf=/verif/seeded/$seed/patch.diff; [ -f /verif/seeded/$seed/patch.rebased.diff ] && pf=/verif/seeded/$seed/patch.rebased.diff
+if ! git -C $wt apply $pf 2>/dev/null; then
+  if ! (cd $wt && patch -p1 -s --no-backup-if-mismatch < $pf >/dev/null 2>&1); then echo "$seed: patch does not apply"; git -C /repo worktree remove --force $wt; exit 2; fi
+fi
+mkdir -p $impl/out; [ -f $wt/Cargo.lock ] || cp /repo/Cargo.lock $wt/Cargo.lock
+[ -d /verif/.build/cargo ] && cp -r /verif/.build/cargo $impl/cargo
 cd /verif
 for p in $props; do
-  extra=""; [ -f /verif/coq/props/$p.v ] || extra="--no-gate"
-  out=$(./check $p --tier ${TIER:-quick} $extra 2>/dev/null | grep -E "^(VIOLATION|OK|KNOWN|ERROR)" | head -3 | tr '\n' ' ')
-  echo "$seed $p: $out"
-  echo "$(date -u +%FT%TZ) tier=${TIER:-quick} $p: $out" >> /verif/seeded/$seed/eval.log
+  out=$(VERIF_REPO=$wt VERIF_IMPL_DIR=$impl VERIF_OUT=$impl/out VERIF_JOBS=${VERIF_JOBS:-8} ./check $p --tier ${TIER:-quick} --seed-eval 2>$impl/err.log | grep -E "^(VIOLATION|OK|KNOWN|ERROR)" | head -3 | tr '\n' ' ')
+  expl=""
+  f=$(echo "$out" | sed -n 's/.*replay=\([^ ]*\).*/\1/p'); [ -n "$f" ] && [ -f "$f" ] && expl=$(python3 -c "import json,sys;print((json.load(open('$f')).get('explanation') or '')[:200])")
+  echo "$seed $p: $out | $expl"
+  echo "$(date -u +%FT%TZ) tier=${TIER:-quick} $p: $out | $expl" >> /verif/seeded/$seed/eval.log
 done
-git -C /repo checkout -- . 
+[ -n "$KEEP" ] || { git -C /repo worktree remove --force $wt; rm -rf $impl; }
